@@ -25,8 +25,12 @@ from ..core import pool_map
 MODULE = "chan/PathLoss.tla"
 ANT = "chan/AntGain.tla"
 MODELS = ["general", "3gpp1", "freespace", "metis", "hata"]
-DEVS = ["FcRejectKeepsValue", "NSetterKeepsC", "FcSetterKeepsC", "ClampArrayOnly", "HataRejectAssigns", "ShadowAfterPolicy"]
+DEVS = ["FcRejectKeepsValue", "NSetterKeepsC", "FcSetterKeepsC", "ClampArrayOnly", "HataRejectAssigns", "ShadowAfterPolicy",
+        "ZeroInArrayAsUnit", "PlotRestoresPolicyFromShadow", "PlotRaiseLeavesShadowOff"]
 FID_FC = "C13-freespace-fc-reject-not-atomic"
+FID_Z = "C13-scalar-zero-distance-domain-error"
+FID_PLOT = "C13-plot-raise-leaves-shadow-off"
+TAG_Z = "[scalar zero distance]"
 FID_I8 = "C13-integer-distances-reduced-precision"
 TAG_I8 = "[8/16-bit integer distances]"
 TOL = 1e-9
@@ -96,6 +100,7 @@ def alphabets(model, tier):
     # array queries: whole lattice, pairs, (thorough) every contiguous window
     # (the non-negative decades are whole numbers: these sets are also issued in every integer dtype)
     sets = [ks] + [[k, k + 1] for k in ks[:-1:2]] + [[ks[0]], [ks[-1], ks[0]], [0, 1, 2], list(range(0, kmax + 1))]
+    sets += [[ZK, 0, 1], [0, ZK], [ZK], [ZK] + ks, [ZK, 0, 1, 2]]  # exact zeros inside arrays
     if th:
         sets += [ks[i:j] for i in range(len(ks)) for j in range(i + 3, len(ks) + 1, 3)]
     arr = []
@@ -107,6 +112,9 @@ def alphabets(model, tier):
         else:
             arr.append(dict(ks=s, ws=[0] * len(s)))
     a["ArrSets"] = arr
+    # plot helper: the whole lattice (raises under policy raise), the same with a leading zero, whole-number distances
+    want = [ks, [ZK] + ks, [0, 1, 2]]
+    a["PlotIdx"] = {next(i + 1 for i, x in enumerate(arr) if x["ks"] == w and not any(x["ws"])) for w in want}
     return a
 
 
@@ -115,7 +123,7 @@ def model_cfg(model, tier, dev=(), emit=False, props=True, sel=0):
     x1, x2 = CONSTS[model]
     enc = dict(x1=enclosure(x1), x2=enclosure(x2), kf=enclosure(KF))
     defs = {k: tlc.tla(a[k]) for k in ("InitArgs", "NVals", "FcVals", "HbsVals", "HmsVals", "AreaVals", "WallVals", "ArrSets",
-                                        "ShadowVals", "SigmaVals")}
+                                        "ShadowVals", "SigmaVals", "PlotIdx")}
     defs["Enc"] = tlc.tla(enc)
     defs["KMin"] = str(a["KMin"])
     defs["KMax"] = str(a["KMax"])
@@ -124,7 +132,7 @@ def model_cfg(model, tier, dev=(), emit=False, props=True, sel=0):
                        defs=defs,
                        invariants=["TypeOK", "ParamsValid", "CConsistent", "PLisDoc", "Monotone", "InUnit", "Policy",
                                    "InverseId", "FriisClose", "ShadowRange"],
-                       properties=["RejectLaw"] if props else [])
+                       properties=["RejectLaw", "PlotPure"] if props else [])
     return cfg, defs
 
 
@@ -224,8 +232,11 @@ def apply_setter(model, o, e):
     return o, "ok", ""
 
 
+ZK = -99  # PathLoss!ZK: the distance 0
+
+
 def dist(k):
-    return float(Fraction(10) ** k)
+    return 0.0 if k == ZK else float(Fraction(10) ** k)
 
 
 def call_dB(model, o, d, w=None):
@@ -255,12 +266,15 @@ def pure_outcome(fn, *args, **kw):
     ndarray arguments (float64 distances / angles / losses, integer wall counts) must be bit-identical after each
     call, the result must not share memory with an argument, and the second result must equal the first.
     Returns outcome_of's (kind, value) of the first call, or ('impure', description)."""
-    snaps = [a.copy() if isinstance(a, np.ndarray) else None for a in args]
+    snaps = [a.copy() if isinstance(a, np.ndarray) else list(a) if isinstance(a, list) else None for a in args]
     seed = kw.get("seed", 20240913)
 
     def touched(when):
         for i, (a, b) in enumerate(zip(args, snaps)):
-            if b is not None and not (a.dtype == b.dtype and a.shape == b.shape and np.array_equal(a, b, equal_nan=True)):
+            if isinstance(b, list):
+                if a != b:
+                    return f"query is not pure: argument {i} (caller's list) was modified by the {when} call: before {b[:4]}.., after {a[:4]}.."
+            elif b is not None and not (a.dtype == b.dtype and a.shape == b.shape and np.array_equal(a, b, equal_nan=True)):
                 return (f"query is not pure: argument {i} (caller's {b.dtype} array) was modified by the {when} call: "
                         f"before {b.ravel()[:4].tolist()}.., after {a.ravel()[:4].tolist()}..")
         return None
@@ -269,7 +283,7 @@ def pure_outcome(fn, *args, **kw):
     t = touched("first")
     if t:
         return "impure", t
-    if k1 == "val" and isinstance(x1, np.ndarray) and any(b is not None and np.shares_memory(x1, a) for a, b in zip(args, snaps)):
+    if k1 == "val" and isinstance(x1, np.ndarray) and any(isinstance(b, np.ndarray) and np.shares_memory(x1, a) for a, b in zip(args, snaps)):
         return "impure", "query is not pure: the returned array shares memory with the caller's argument"
     keep = x1.copy() if isinstance(x1, np.ndarray) else x1
     np.random.seed(seed)
@@ -289,7 +303,7 @@ def pure_outcome(fn, *args, **kw):
 INT_DTYPES = (np.int8, np.uint8, np.int16, np.int32, np.int64)
 
 
-def variants(a):
+def variants(a, lists=False):
     """(label, array, tolerance factor) for every other way a caller may hold the same values: every integer dtype
     that can hold them (whole numbers only), float32, a strided (non-contiguous) view, a read-only array"""
     out = []
@@ -306,6 +320,8 @@ def variants(a):
         ro = a.copy()
         ro.setflags(write=False)
         out.append(("read-only", ro, 1.0))
+        if lists:
+            out.append(("list", a.tolist(), 1.0))
     return out
 
 
@@ -322,7 +338,7 @@ def first_time(*key):
     return True
 
 
-def sweep(fn, args, kind0, x0, rel=False, dist8=True):
+def sweep(fn, args, kind0, x0, rel=False, dist8=True, lists=False):
     """AnyDtypeSameValue: repeat the array query fn(*args) with every variant of every ndarray argument (one argument
     varied at a time); the outcome must be the one of the float64 call (already compared with the exact value)."""
     first8 = None
@@ -343,13 +359,13 @@ def sweep(fn, args, kind0, x0, rel=False, dist8=True):
                 tol = np.maximum(tol, 1e-33)  # single precision results: below ~1e-38 a linear value is denormal
             if x.shape != w.shape or not np.all(np.abs(x - w) <= tol):
                 j = int(np.argmax(np.abs(x - w) - tol)) if x.shape == w.shape and x.size else 0
-                return (f"argument {i} as {label} ({v.ravel()[j]!r}): returned {x.ravel()[j] if x.size else x!r}, "
+                return (f"argument {i} as {label} ({np.asarray(v).ravel()[j]!r}): returned {x.ravel()[j] if x.size else x!r}, "
                         f"as float64 ({a.ravel()[j]!r}): {w.ravel()[j] if w.size else w!r}")
         return None
     for i, a in enumerate(args):
         if not isinstance(a, np.ndarray):
             continue
-        for label, v, f in variants(a):
+        for label, v, f in variants(a, lists and i == 0):
             r = one(i, a, label, v, f)
             if r and i == 0 and dist8 and label in ("int8", "uint8", "int16"):
                 first8 = first8 or f"{TAG_I8} {r}"  # signature of a listed finding; keep looking for anything else
@@ -397,10 +413,11 @@ def run_query(model, o, q):
                     return f"element {i} (d=10^{q['ks'][i]}): {r}"
         if not first_time(model, graph.key(q["pre"]), q["ks"], q["ws"]):
             return None
-        r = sweep(lambda dd, ww: call_dB(model, o, dd, ww), [d, w], kind, x)
+        lists = model not in ("metis", "hata")  # METIS asserts ndarray with wall arrays; Okumura-Hata compares d < 1.0
+        r = sweep(lambda dd, ww: call_dB(model, o, dd, ww), [d, w], kind, x, lists=lists)
         if r is None and kind == "val":
             kl, xl = pure_outcome(lambda dd, ww: call_lin(model, o, dd, ww), d, w)
-            r = xl if kl == "impure" else sweep(lambda dd, ww: call_lin(model, o, dd, ww), [d, w], kl, xl, rel=True)
+            r = xl if kl == "impure" else sweep(lambda dd, ww: call_lin(model, o, dd, ww), [d, w], kl, xl, rel=True, lists=lists)
         return ("array query, " + r) if r else None
     k, w = q["k"], q.get("w", 0)
     d = dist(k)
@@ -408,6 +425,10 @@ def run_query(model, o, q):
     if op in ("PLdB", "PL", "Friis"):
         lin = op == "PL"
         kind, x = outcome_of(lambda: (call_lin if lin else call_dB)(model, o, d, w))
+        if k == ZK and exp["t"] == "raise" and kind in ("raise", "raisevalue"):
+            return None  # policy raise: the property does not fix the exception type (math domain error is accepted)
+        if k == ZK and exp["t"] == "zero" and kind == "raisevalue" and "math domain" in str(x):
+            return f"{TAG_Z} calc_path_loss{'' if lin else '_dB'}({d!r}) raised ValueError ({x}) although too small distances are to be clamped to 0 dB"
         if exp["t"] in ("raise", "raisevalue"):
             return None if kind == exp["t"] else f"returned {x!r}, expected {'RuntimeError' if exp['t'] == 'raise' else 'ValueError'}"
         if kind != "val":
@@ -452,10 +473,11 @@ def rel_predicates(model, o, walls=(0,), kmin=-4, kmax=3, per_decade=4, inverse=
     """the laws of the property as relations, evaluated numerically on a distance grid (rel).
     Returns {predicate: None | description}."""
     res = {"Monotone": None, "LinearIsDb": None, "InUnit": None, "PolicyArrayScalar": None, "InverseId": None, "QueryPure": None}
-    grid = np.array([10.0 ** (kmin + i / per_decade) for i in range((kmax - kmin) * per_decade + 1)])
+    grid_pos = np.array([10.0 ** (kmin + i / per_decade) for i in range((kmax - kmin) * per_decade + 1)])
     pol = o.handle_small_distances_bool is True
     for w in walls:
         scal = []
+        grid = grid_pos
         for d in grid:
             kind, x = outcome_of(lambda: call_dB(model, o, float(d), w))
             scal.append((kind, x))
@@ -489,6 +511,10 @@ def rel_predicates(model, o, walls=(0,), kmin=-4, kmax=3, per_decade=4, inverse=
                 seen_val = True
             elif kind != "val" and seen_val:
                 res["Monotone"] = "a distance beyond an admissible one is rejected"
+        # the array query additionally holds an exact 0.0 (the diagonal of a distance matrix): the extreme of "too small",
+        # it must fall under the policy like the scalar query of any too small distance (clamp -> 0 dB, raise -> exception)
+        grid = np.concatenate(([0.0], grid_pos))
+        scal = [("val", 0.0) if pol else ("raise", "zero distance")] + scal
         wa = np.full(grid.shape, w) if model == "metis" else None
         kind, xa = pure_outcome(lambda dd, ww: call_dB(model, o, dd, ww), grid, wa)
         if kind == "impure":
@@ -651,6 +677,44 @@ def run_path(job):
     return run_edges(model, g.path_edges(path), qs)
 
 
+class _Axes:
+    """stands in for a matplotlib Axes: the plot helper only calls ax.plot(d, PL, **extra_args)"""
+
+    def __init__(self):
+        self.calls = []
+
+    def plot(self, x, y, **kw):
+        self.calls.append((x, np.array(y, dtype=float), kw))
+
+
+def plot_call(o, d):
+    ax = _Axes()
+    o.plot_deterministic_path_loss_in_dB(d, ax=ax, extra_args={"label": "c13"})
+    if len(ax.calls) != 1 or ax.calls[0][2] != {"label": "c13"} or not np.array_equal(np.asarray(ax.calls[0][0]), d):
+        raise ValueError(f"plot helper called ax.plot {len(ax.calls)} times / with other distances or keywords")
+    return ax.calls[0][1]
+
+
+def plot_step(model, o, e):
+    """the emitted Plot action on the real object: (outcome 'plot' | 'plotraise', problem or None)"""
+    d = np.array([dist(k) for k in e["arg"]["ks"]])
+    kind, y = pure_outcome(lambda dd: plot_call(o, dd), d)
+    exp = e["exp"]
+    if kind == "impure":
+        return "plot", y
+    if exp["t"] == "raise":
+        return ("plotraise", None) if kind == "raise" else ("plot", f"drew {y!r}, expected RuntimeError (policy: raise)")
+    if kind != "val":
+        return "plotraise", f"raised ({y}), expected the deterministic curve"
+    if np.shape(y) != d.shape:
+        return "plot", f"drew a curve of shape {np.shape(y)}"
+    for i, el in enumerate(exp["v"]):
+        r = check_elem(np.float64(y[i]), el, model)
+        if r:
+            return "plot", f"curve point {i} (d={d[i]!r}): {r}"
+    return "plot", None
+
+
 def run_edges(model, edges, qs, all_states=False):
     o = None
     okc = qc = 0
@@ -658,16 +722,34 @@ def run_edges(model, edges, qs, all_states=False):
     with warnings.catch_warnings():
         warnings.simplefilter("ignore")
         for i, e in enumerate(edges):
-            before = behaviour(model, o) if (o is not None and e["out"] == "raise") else None
-            o, got, txt = apply_setter(model, o, e)
-            if before is not None and got == "raise" and behaviour(model, o) != before:
+            before = behaviour(model, o) if (o is not None and e["out"] in ("raise", "plot", "plotraise")) else None
+            if e["op"] == "Plot":
+                got, txt = plot_step(model, o, e)
+                if txt:
+                    viol.append({"step": i, "op": "Plot", "arg": e["arg"],
+                                 "what": f"plot_deterministic_path_loss_in_dB in state {short(e['pre'])}: {txt}"})
+                    break
+                bad = compare_params(model, o, e["post"])
+                if got == "plotraise" == e["out"] and bad == ["shadow is False, expected True"]:
+                    viol.append({"step": i, "op": "Plot", "arg": e["arg"], "finding": FID_PLOT,
+                                 "what": f"after the raising plot_deterministic_path_loss_in_dB({e['arg']}) use_shadow_bool is False, expected True"})
+                    o.use_shadow_bool = True  # resynchronise with the specification and go on
+                    bad = []
+                if not bad and got == e["out"] and behaviour(model, o) != before:
+                    viol.append({"step": i, "op": "Plot", "arg": e["arg"],
+                                 "what": f"QueryIsPure: after plot_deterministic_path_loss_in_dB the object answers differently: "
+                                         f"{before} -> {behaviour(model, o)}"})
+                    break
+            else:
+                o, got, txt = apply_setter(model, o, e)
+            if e["op"] != "Plot" and before is not None and got == "raise" and behaviour(model, o) != before:
                 viol.append({"step": i, "op": e["op"], "arg": e["arg"],
                              "what": f"RejectedChangesNothing: after the rejected {e['op']}({e['arg']}) the object answers differently: "
                                      f"{before} -> {behaviour(model, o)}"})
                 break
             if got != e["out"]:
                 viol.append({"step": i, "op": e["op"], "arg": e["arg"],
-                             "what": f"{e['op']}({e['arg']}) {'raised ' + txt if got == 'raise' else 'was accepted'}, expected {e['out']}"})
+                             "what": f"{e['op']}({e['arg']}) {'raised ' + str(txt) if 'raise' in got else 'was accepted'}, expected {e['out']}"})
                 break
             bad = compare_params(model, o, e["post"])
             if bad:
@@ -688,8 +770,8 @@ def run_edges(model, edges, qs, all_states=False):
                     if r:
                         viol.append({"step": i, "op": q["op"], "arg": {k: q.get(k) for k in ("k", "w", "ks", "ws")},
                                      "what": f"in state {short(e['post'])} after {[x['op'] for x in edges[:i + 1]]}: {q['op']}: {r}"})
-                        if TAG_I8 in r:
-                            viol[-1]["finding"] = FID_I8
+                        if TAG_I8 in r or TAG_Z in r:
+                            viol[-1]["finding"] = FID_I8 if TAG_I8 in r else FID_Z
                             continue
                         break
                     qc += 1
@@ -860,7 +942,8 @@ def ant_cfg(tier, dev=False, emit=True):
 
 
 # ------------------------------------------------------------------------------- the check
-REFUTE = {"ShadowAfterPolicy": "3gpp1", "FcRejectKeepsValue": "freespace", "NSetterKeepsC": "freespace", "FcSetterKeepsC": "freespace",
+REFUTE = {"ZeroInArrayAsUnit": "general", "PlotRestoresPolicyFromShadow": "3gpp1", "PlotRaiseLeavesShadowOff": "3gpp1",
+          "ShadowAfterPolicy": "3gpp1", "FcRejectKeepsValue": "freespace", "NSetterKeepsC": "freespace", "FcSetterKeepsC": "freespace",
           "ClampArrayOnly": "general", "HataRejectAssigns": "hata"}
 
 
@@ -915,8 +998,8 @@ def run(ctx):
         for e in runs[m].emitted:
             a = e["op"] if e["kind"] == "set" else "Q" + e["op"]
             ctx.actions[a] = ctx.actions.get(a, 0) + 1
-        plan[m] = explore(ctx, m, runs[m], depth, 2000 if th else 150, 10 if th else 8, 20000 if th else 6000)
-    ctx.require_actions(["Construct", "SetPol", "SetShadow", "SetSigma", "SetN", "SetFc", "SetHbs", "SetHms", "SetArea", "QPLdB", "QPL", "QPLdBArr",
+        plan[m] = explore(ctx, m, runs[m], depth, 2000 if th else 100, 10 if th else 8, 20000 if th else 3000)
+    ctx.require_actions(["Construct", "Plot", "SetPol", "SetShadow", "SetSigma", "SetN", "SetFc", "SetHbs", "SetHms", "SetArea", "QPLdB", "QPL", "QPLdBArr",
                          "QWhichDistDB", "QWhichDist", "QFriis", "QRel"])
     n = 0
     jobs = [(m, p) for m in MODELS for p in plan[m][2]]
